@@ -399,8 +399,9 @@ type vaStep struct {
 }
 
 type vaCacheInput struct {
-	Behaviours [][]vaStep `json:"behaviours"`
-	InitPw     string     `json:"init_pw"`
+	Behaviours     [][]vaStep `json:"behaviours"`
+	RaftBehaviours [][]vaStep `json:"raft_behaviours"` // the sample for TestVerifAuthCacheRaft when both drivers share an input
+	InitPw         string     `json:"init_pw"`
 }
 
 // backend = where changes are committed and how they reach the client under test
@@ -972,6 +973,9 @@ func TestVerifAuthCacheRaft(t *testing.T) {
 	defer c.Close()
 	if _, err := c.CreateDatabase("d1"); err != nil {
 		vaInfra(t, "%v", err)
+	}
+	if in.RaftBehaviours != nil {
+		in.Behaviours = in.RaftBehaviours
 	}
 	be := &vaRaft{c: c}
 	if _, err := c.CreateUser("probe", "x", false); err != nil {
